@@ -223,6 +223,8 @@ def gen_universe(rng):
             uni[b2][v] = [[d, b"", [[K_EXTRAS, b"e2"]]]]
         for v in vers[d]:
             uni[d][v] = [[e, b"", [[K_ENV, b'extra == "e1"']]], [f, b"", [[K_ENV, b'extra == "e2"']]]]
+    if rng.random() < 0.10:
+        rejected_extras_template(rng, names, vers, uni)
     if rng.random() < 0.04 and npk >= 7:
         # F-C08-3: x requests z[e2] and is then cut off because w is re-pinned; needs x < y < z by name
         cand_w = [n for n in names if len([v for v in vers[n] if vkey(v)[1] == 3]) >= 2]
@@ -248,6 +250,67 @@ def gen_universe(rng):
             for v in vers[m]:
                 uni[m][v] = []
     return names, vers, uni
+
+
+XNAMES = [b"e1", b"e2", b"e3"]
+
+
+def rejected_extras_template(rng, names, vers, uni):
+    """Extras requested by candidates that end up rejected or backtracked away, on a package that already carries
+    extras.  foo gates one dependency per extra; top asks for cand, foo[base] and pins z; one version of cand asks
+    for foo[other] and either contradicts the pin of z itself (rejected as a candidate) or needs w, which
+    contradicts it (pinned, then backtracked away).  Which version of cand is the doomed one, the order of the
+    requirements and the sets of extras vary; sometimes the asking version is the one that survives."""
+    k = rng.randrange(1, 4)
+    if len(names) < 5 + k:
+        return
+    picked = rng.sample(names, 5 + k)
+    top, cand, foo, z, w = picked[:5]
+    gated = picked[5:]
+    ex = XNAMES[:k] if k > 1 else [rng.choice(XNAMES)]
+    if k == 1:
+        ex = rng.sample(XNAMES, 2)          # one gated extra, one that gates nothing
+        gated_for = {ex[0]: gated[0]}
+    else:
+        gated_for = dict(zip(ex, gated))
+    base = rng.sample(ex, rng.randrange(1, len(ex)))
+    other = [e for e in ex if e not in base] if rng.random() < 0.7 else rng.sample(ex, rng.randrange(1, len(ex) + 1))
+    if not other:
+        other = [ex[-1]]
+    for v in vers[foo]:
+        uni[foo][v] = [[g, b"", [[K_ENV, b'extra == "' + e + b'"']]] for e, g in gated_for.items()]
+    for g in gated:
+        for v in vers[g]:
+            uni[g][v] = []
+    za = rng.choice(vers[z])
+    for v in vers[z]:
+        uni[z][v] = []
+    cs = sorted(vers[cand], key=vkey)
+    finals = [v for v in cs if vkey(v)[1] >= 3] or cs
+    first_tried = finals[-1]
+    asking = first_tried if (rng.random() < 0.75 or len(finals) < 2) else rng.choice(finals[:-1])
+    doomed = first_tried
+    real_backtrack = rng.random() < 0.4
+    for v in vers[cand]:
+        reqs = []
+        if v == asking:
+            reqs.append([foo, b"", [[K_EXTRAS, b",".join(other)]]])
+        elif rng.random() < 0.3:
+            reqs.append([foo, b"", []])
+        if v == doomed:
+            clash = [w, b"", []] if real_backtrack else [z, b"!=" + za, []]
+            if rng.random() < 0.7:
+                reqs.append(clash)
+            else:
+                reqs.insert(0, clash)
+        uni[cand][v] = reqs
+    for v in vers[w]:
+        uni[w][v] = [[z, b"!=" + za, []]]
+    direct = [[cand, b"", []], [foo, b"", [[K_EXTRAS, b",".join(base)]]], [z, b"==" + za, []]]
+    if rng.random() < 0.3:
+        rng.shuffle(direct)
+    for v in vers[top]:
+        uni[top][v] = [list(d) for d in direct]
 
 
 def set_req(reqs, tgt, spec, ty):
